@@ -685,87 +685,99 @@ impl FixtureDatabase {
         self.get_completion_context_from_text(&content, target_line)
     }
 
-    /// Check whether a `@pytest.fixture` decorator appears in the lines immediately
-    /// above `def_line_idx` (0-based index into `lines`).
+    /// Collect the text of the decorators written immediately above `def_line_idx`
+    /// (0-based index into `lines`), nearest first.
     ///
     /// Scans upward through decorator lines (lines starting with `@` after stripping
-    /// whitespace) and blank lines, stopping at the first non-decorator, non-blank line.
-    fn has_fixture_decorator_above(lines: &[&str], def_line_idx: usize) -> bool {
-        if def_line_idx == 0 {
-            return false;
-        }
-        let mut i = def_line_idx - 1;
-        loop {
+    /// whitespace), the continuation lines of a decorator call spread over several lines,
+    /// and blank lines, stopping at the first line that is none of these. A multi-line
+    /// decorator is returned as one string.
+    fn decorators_above(lines: &[&str], def_line_idx: usize) -> Vec<String> {
+        let mut decorators = Vec::new();
+        // Continuation lines seen so far (below the `@` line they belong to), and the
+        // number of closing parentheses in them still waiting for their opening one
+        let mut continuation: Vec<&str> = Vec::new();
+        let mut unmatched_closing: i32 = 0;
+
+        for i in (0..def_line_idx).rev() {
             let trimmed = lines[i].trim();
             if trimmed.is_empty() {
                 // Skip blank lines between decorators and def
-                if i == 0 {
-                    break;
-                }
-                i -= 1;
                 continue;
             }
             if trimmed.starts_with('@') {
-                // Check for @pytest.fixture or @fixture (with optional parens/args)
-                if trimmed.contains("pytest.fixture") || trimmed.starts_with("@fixture") {
-                    return true;
+                let mut text = trimmed.to_string();
+                for part in continuation.drain(..).rev() {
+                    text.push(' ');
+                    text.push_str(part);
                 }
-                // Another decorator — keep scanning upward
-                if i == 0 {
-                    break;
-                }
-                i -= 1;
+                unmatched_closing = 0;
+                decorators.push(text);
                 continue;
             }
-            // Hit a non-decorator, non-blank line — stop
+            let closing = trimmed.matches(')').count() as i32;
+            let opening = trimmed.matches('(').count() as i32;
+            unmatched_closing += closing - opening;
+            if unmatched_closing > 0 {
+                // Inside a parenthesis opened further up: part of a multi-line decorator call
+                continuation.push(trimmed);
+                continue;
+            }
+            // Hit a line that belongs to no decorator — stop
             break;
         }
-        false
+        decorators
+    }
+
+    /// Check whether a fixture decorator (`@pytest.fixture`, `@fixture`,
+    /// `@pytest_asyncio.fixture`, with optional parens/args) appears in the lines
+    /// immediately above `def_line_idx` (0-based index into `lines`).
+    fn has_fixture_decorator_above(lines: &[&str], def_line_idx: usize) -> bool {
+        Self::decorators_above(lines, def_line_idx)
+            .iter()
+            .any(|decorator| Self::is_fixture_decorator_text(decorator))
+    }
+
+    fn is_fixture_decorator_text(decorator: &str) -> bool {
+        decorator.contains("pytest.fixture")
+            || decorator.contains("pytest_asyncio.fixture")
+            || decorator.starts_with("@fixture")
     }
 
     /// Extract the fixture scope from decorator text above a function definition.
     ///
-    /// Scans decorator lines above `def_line_idx` for `@pytest.fixture(scope="...")`.
-    /// Searches each decorator line individually to avoid quadratic string building.
+    /// Scans the decorators above `def_line_idx` for a `scope="..."` argument (either quote
+    /// style, with or without spaces around `=`).
     /// Returns `None` if no scope keyword is found (caller should default to `Function`).
     fn extract_fixture_scope_from_text(
         lines: &[&str],
         def_line_idx: usize,
     ) -> Option<FixtureScope> {
-        if def_line_idx == 0 {
-            return None;
-        }
-
-        // Scan decorator lines above the def and search each one for scope=
-        let mut i = def_line_idx - 1;
-        loop {
-            let trimmed = lines[i].trim();
-            if trimmed.is_empty() {
-                if i == 0 {
-                    break;
+        for decorator in Self::decorators_above(lines, def_line_idx) {
+            let mut search_from = 0;
+            while let Some(found) = decorator[search_from..].find("scope") {
+                let pos = search_from + found;
+                search_from = pos + "scope".len();
+                // `scope` must be a word of its own, followed by `=` and a quoted value
+                let part_of_word = decorator[..pos]
+                    .chars()
+                    .next_back()
+                    .is_some_and(|c| c.is_alphanumeric() || c == '_');
+                if part_of_word {
+                    continue;
                 }
-                i -= 1;
-                continue;
+                let Some(value) = decorator[search_from..].trim_start().strip_prefix('=') else {
+                    continue;
+                };
+                let value = value.trim_start();
+                let Some(quote_char) = value.chars().next().filter(|c| *c == '"' || *c == '\'')
+                else {
+                    continue;
+                };
+                if let Some(end) = value[1..].find(quote_char) {
+                    return FixtureScope::parse(&value[1..1 + end]);
+                }
             }
-            if trimmed.starts_with('@') {
-                // Check this decorator line for scope="..." or scope='...'
-                for pattern in &["scope=\"", "scope='"] {
-                    if let Some(pos) = trimmed.find(pattern) {
-                        let start = pos + pattern.len();
-                        let quote_char = if pattern.ends_with('"') { '"' } else { '\'' };
-                        if let Some(end) = trimmed[start..].find(quote_char) {
-                            let scope_str = &trimmed[start..start + end];
-                            return FixtureScope::parse(scope_str);
-                        }
-                    }
-                }
-                if i == 0 {
-                    break;
-                }
-                i -= 1;
-                continue;
-            }
-            break;
         }
 
         None
